@@ -116,6 +116,14 @@ func c16History(k *fw.K, B, D, O int) {
 		if B <= 6 && k.Rng.Intn(3) == 0 && tag != "Forward before back-propagation" {
 			B = 1 + k.Rng.Intn(6) // the same layer sees batches of different sizes
 		}
+		if k.Rng.Intn(4) == 0 { // a batch of the same shape that is not finite went through the layer first (outcome ignored)
+			bad := ref.Full([]int{B, D}, math.NaN())
+			for i := range bad.Data {
+				bad.Data[i] = []float64{math.NaN(), math.Inf(1), math.Inf(-1), 1}[k.Rng.Intn(4)]
+			}
+			k.Count("non_finite_batches_fed_before_a_finite_one", 1)
+			call(func() { _, _ = fc.Forward(rt.MustLeaf(bad, false)) })
+		}
 		x = Shuffled(k.Rng, Unique(k.Rng, []int{B, D}, 0.2, 2))
 		rx = rt.MustLeaf(x, track)
 		if p := call(func() { ry, err = fwd(rx) }); p != nil || err != nil || ry == nil {
